@@ -4,6 +4,7 @@ package control
 // while its convoy sits between "channel is empty" and popOverflowTask.
 
 import (
+	"fmt"
 	"net/netip"
 	"os"
 	"runtime"
@@ -11,6 +12,7 @@ import (
 	"sync"
 	"sync/atomic"
 	"testing"
+	"testing/synctest"
 	"time"
 )
 
@@ -52,14 +54,78 @@ func c13OverflowStress(rounds, n int, budget time.Duration) (round, pos, got int
 	return 0, 0, 0, false
 }
 
-// TestC13_Finding_FC131: one goroutine emits 400 tasks per round for one flow
-// while the convoy drains them; they must run in emission order. The reordering
-// needs the convoy to be delayed between its "channel empty" check and
-// popOverflowTask while >128 tasks arrive, so this is a bounded stress run (real
-// time, outside any bubble), not a scheduled replay.
+// c13OverflowReplay drives the interleaving of F-C13-1 with the scheduler: the
+// worker has seen its channel empty (parked at convoy.beforeOverflowPop), then
+// one producer emits 130 tasks (128 fill the channel, 2 spill to the overflow
+// list), then the worker goes on. hooked=false if the yield point does not exist.
+func c13OverflowReplay(t *testing.T) (hooked, bad bool, detail string) {
+	c13InBubble(t, func() {
+		s := c13NewSched(1)
+		defer s.teardown()
+		verifSetHooks(&verifHooks{Yield: s.yield})
+		sc := &c13Script{s: s, none: map[string]bool{}}
+		t0 := sc.emit(0, 1)[0]
+		// let the worker run task 0 and come back to an empty channel
+		for i := 0; i < 20 && t0.runs == 0; i++ {
+			p := sc.parkedAt("convoy.beforeOverflowPop")
+			if p == nil {
+				break
+			}
+			s.resume(p)
+			synctest.Wait()
+		}
+		synctest.Wait()
+		if sc.parkedAt("convoy.beforeOverflowPop") == nil {
+			return
+		}
+		hooked = true
+		if t0.runs != 1 {
+			bad, detail = true, fmt.Sprintf("setup failed: first task ran %d times", t0.runs)
+			return
+		}
+		burst := sc.emit(0, UdpTaskQueueLength+2)
+		done := sc.runUntil("")
+		s.mu.Lock()
+		defer s.mu.Unlock()
+		var order []int
+		for _, e := range s.execs {
+			order = append(order, e.task.id)
+		}
+		inOrder := len(order) == len(burst)+1
+		for i, id := range order {
+			if id != i {
+				inOrder = false
+			}
+		}
+		bad = !inOrder || s.failMsg != "" || !done
+		if len(order) > 6 {
+			order = order[:6]
+		}
+		detail = fmt.Sprintf("%d tasks emitted while the worker sat between its empty-channel check and popOverflowTask; first executions %v, in order: %v, oracle: %q", len(burst), order, inOrder, s.failMsg)
+	})
+	return
+}
+
+// TestC13_Finding_FC131: tasks of one flow must run in acceptance order also when
+// the channel fills up and spills while the worker is between "channel empty"
+// and popOverflowTask. First the scheduled replay (needs the yield point
+// convoy.beforeOverflowPop), then a short real-time stress run (one goroutine
+// emits 400 tasks per round for one flow while the convoy drains them).
 func TestC13_Finding_FC131(t *testing.T) {
+	known := vkKnown("F-C13-1")
+	hooked, bad, detail := c13OverflowReplay(t)
 	verifSetHooks(nil)
-	rounds, budget := 4000, 15*time.Second
+	if !hooked {
+		t.Logf("yield point convoy.beforeOverflowPop not present: scheduled replay skipped")
+	} else if bad {
+		if known {
+			vkKnownReproduced("F-C13-1")
+			t.Logf("known finding F-C13-1 still reproduces (scheduled replay): %s", detail)
+			return
+		}
+		t.Fatalf("F-C13-1: per-flow order lost: %s", detail)
+	}
+	rounds, budget := 2000, 8*time.Second
 	if vkThorough() {
 		rounds, budget = 40000, 60*time.Second
 	}
@@ -75,12 +141,12 @@ func TestC13_Finding_FC131(t *testing.T) {
 		}
 		t.Fatalf("round %d: only %d of 400 accepted tasks of one flow ever ran", r, got)
 	}
-	if vkKnown("F-C13-1") {
+	if known {
 		if found {
 			vkKnownReproduced("F-C13-1")
-			t.Logf("known finding F-C13-1 still reproduces: round %d, execution #%d was task %d", r, pos, got)
+			t.Logf("known finding F-C13-1 still reproduces (stress): round %d, execution #%d was task %d", r, pos, got)
 		} else {
-			t.Logf("known finding F-C13-1 not hit in this stress run (%d rounds)", rounds)
+			t.Logf("known finding F-C13-1 no longer reproduces (replay ok=%v, %d stress rounds)", hooked && !bad, rounds)
 		}
 		return
 	}
